@@ -1,10 +1,15 @@
-(* C19: shutdown timeline model. Line: shutdown <wait_nonneg 0/1> <W> <G> | <arrivals...> | <service times...>  (ns, relative to the signal)
+(* C19: shutdown timeline model.
+   Line: shutdown <wait_nonneg 0/1> <W> <G> | <arrivals...> | <service times...> [| <signal instants...> | <signal kinds...>]
+   (ns, relative to the first signal; the signal lists include the first signal; absent = one signal)
    Output: 0 (refused at start-up) or 1 close deadline exit_time exit_code accepted... completes... *)
 open Model
 open Common
 
 let () = register "shutdown" (fun toks ->
+  let zs = List.map z_of_string in
   match split_bar toks with
   | [[nn; w; g]; arr; svc] ->
-    print_zs (entry_shutdown (nn = "1") (z_of_string w) (z_of_string g) (List.map z_of_string arr) (List.map z_of_string svc))
+    print_zs (entry_shutdown (nn = "1") (z_of_string w) (z_of_string g) (zs arr) (zs svc) [] [])
+  | [[nn; w; g]; arr; svc; sat; skind] ->
+    print_zs (entry_shutdown (nn = "1") (z_of_string w) (z_of_string g) (zs arr) (zs svc) (zs sat) (zs skind))
   | _ -> print_endline "?bad shutdown line")
